@@ -92,6 +92,22 @@ type c14Opt struct {
 	val  string // effective value this option sets
 }
 
+// gitBool interprets a configuration value the way git-config(1) documents
+// booleans: true/yes/on and false/no/off in any case, integers (0 = false), the
+// empty string (false) and a key without a value (true).
+func gitBool(v string) (val, ok bool) {
+	switch strings.ToLower(v) {
+	case "true", "yes", "on", "\x00novalue":
+		return true, true
+	case "false", "no", "off", "":
+		return false, true
+	}
+	if n, err := strconv.Atoi(v); err == nil {
+		return n != 0, true
+	}
+	return false, false
+}
+
 func c14Seqs(opts []c14Opt, maxLen int, f func(seq []c14Opt)) {
 	var rec func(cur []c14Opt)
 	rec = func(cur []c14Opt) {
@@ -241,16 +257,17 @@ func c14Worker(sh *explore.Shard) {
 		func(got, want cli.Result) string { return sameStdout(got, want) })
 	// progress family: stdout identical; progress lines on stderr iff effective
 	family("progress", "sizer.progress",
-		[][]string{nil, {"true"}, {"false"}, {"maybe"}},
+		// every spelling git accepts as a boolean (the key is documented as a git boolean)
+		[][]string{nil, {"true"}, {"false"}, {"maybe"}, {"yes"}, {"on"}, {"no"}, {"off"}, {"1"}, {"0"}, {"2"}, {"TRUE"}, {"Off"}, {""}, {"\x00novalue"}, {"false", "yes"}},
 		[]c14Opt{{[]string{"--progress"}, "true"}, {[]string{"--no-progress"}, "false"}, {[]string{"--progress=false"}, "false"}, {[]string{"--no-progress=false"}, "true"}},
 		nil,
 		func(v string) []string {
-			if v == "true" {
+			if b, _ := gitBool(v); b {
 				return []string{"--progress"}
 			}
 			return []string{"--no-progress"}
 		},
-		func(v string) bool { return v == "true" || v == "false" }, "true",
+		func(v string) bool { _, ok := gitBool(v); return ok }, "true",
 		func(got, want cli.Result) string {
 			if d := sameStdout(got, want); d != "" {
 				return d
